@@ -21,6 +21,7 @@ From Onet Require Export Base.Corr Net.RouterClose Net.CloseSeq Net.CloseConc.
 (* which variant of the code the correspondence compares with; the integrator flips a
    flag when the corresponding fix commit lands in /repo *)
 Definition code_fixed_F11 := true.   (* set-up failure closes the connection (router.go) *)
+Definition code_fixed_F43 := true.  (* accepted connections are tracked until their callback returns (router.go) *)
 Definition code_fixed_F41 := true.   (* treeStorage.Close releases the lock before wg.Wait *)
 Definition code_fixed_F42 := true.   (* a closed overlay refuses new instances *)
 
@@ -34,6 +35,7 @@ Inductive macro :=
 | MSendRelease (t : nat)        (* sender t continues to completion *)
 | MIncoming (p : nat)           (* peer p connects and identifies itself; callback runs to completion *)
 | MIncomingHold (p : nat)       (* ... held at router.identityReceived *)
+| MIncomingHoldAcc (p : nat)    (* ... held at router.accepted, before the callback's first step *)
 | MIncomingSilent (p : nat)     (* peer p connects and sends nothing *)
 | MIncomingRelease (c : nat)    (* the callback of connection c continues to completion *)
 | MSilentClose (c : nat)        (* the silent peer of c closes its end *)
@@ -47,34 +49,39 @@ Inductive macro :=
 
 Record xstate := mkX { xs : state; held_disp : list nat; held_stop : list nat }.
 
-Definition attempt (fx : bool) (s : state) (a : action) : state :=
+Definition attempt (fx : fixes) (s : state) (a : action) : state :=
   match step fx s a with Some s' => s' | None => s end.
 
-Fixpoint tries (fx : bool) (s : state) (l : list action) : state :=
+Fixpoint tries (fx : fixes) (s : state) (l : list action) : state :=
   match l with [] => s | a :: r => tries fx (attempt fx s a) r end.
 
 (* what the handler goroutines and the unheld Stop calls do by themselves *)
-Definition pass (fx : bool) (x : xstate) : state :=
+Definition pass (fx : fixes) (x : xstate) : state :=
   let s1 := fold_left (fun s c =>
-              tries fx s ([AHRecvErr c; AHCheck c] ++
+              tries fx s ((* receiveServerIdentity fails by itself on a connection Stop has closed *)
+                          match nth_error (conns s) c with
+                          | Some k => if lopen k then [] else [ARecvIdFail c]
+                          | None => []
+                          end ++
+                          [AHRecvErr c; AHCheck c] ++
                           (if mem c (held_disp x) then [] else [AHDispatch c]) ++
-                          [AHExitClose c; AHExitDone c; AHExitRemove c]))
+                          [AHExitClose c; AHExitDone c; AHExitRemove c; AEnd c]))
               (seq 0 (length (conns (xs x)))) (xs x) in
   fold_left (fun s t => if mem t (held_stop x) then s else attempt fx s (AWait t))
             (seq 0 (length (stops s1))) s1.
 
-Fixpoint settle_n (fx : bool) (n : nat) (x : xstate) : xstate :=
+Fixpoint settle_n (fx : fixes) (n : nat) (x : xstate) : xstate :=
   match n with
   | 0 => x
   | S n' => settle_n fx n' (mkX (pass fx x) (held_disp x) (held_stop x))
   end.
 
-Definition settle (fx : bool) (x : xstate) : xstate :=
+Definition settle (fx : fixes) (x : xstate) : xstate :=
   settle_n fx 4 x.
 
 (* one step of a sending goroutine; [hold] = 1: stop at router.connected (before
    registerConnection), 2: stop at router.registered (before launchHandleRoutine) *)
-Definition sender_step (fx : bool) (dial_ok : bool) (hold : nat) (s : state) (t : nat) : option state :=
+Definition sender_step (fx : fixes) (dial_ok : bool) (hold : nat) (s : state) (t : nat) : option state :=
   match nth_error (senders s) t with
   | Some (NLookup _) => step fx s (ALookup t)
   | Some (NDial _ _) => step fx s (if dial_ok then ADialOk t else ADialFail t)
@@ -101,7 +108,7 @@ Definition sender_step (fx : bool) (dial_ok : bool) (hold : nat) (s : state) (t 
   | _ => None
   end.
 
-Fixpoint sender_run (fx : bool) (fuel : nat) (dial_ok : bool) (hold : nat) (s : state) (t : nat) : state :=
+Fixpoint sender_run (fx : fixes) (fuel : nat) (dial_ok : bool) (hold : nat) (s : state) (t : nat) : state :=
   match fuel with
   | 0 => s
   | S f => match sender_step fx dial_ok hold s t with
@@ -111,16 +118,16 @@ Fixpoint sender_run (fx : bool) (fuel : nat) (dial_ok : bool) (hold : nat) (s : 
   end.
 
 (* a released sender first passes the point it was held at *)
-Definition sender_release (fx : bool) (s : state) (t : nat) : state :=
+Definition sender_release (fx : fixes) (s : state) (t : nat) : state :=
   match nth_error (senders s) t with
   | Some (NConnect _ c _) => sender_run fx 40 true 0 (tries fx s [ARegister c; ALaunch c]) t
   | _ => s
   end.
 
-Definition incoming_rest (fx : bool) (s : state) (c : nat) : state :=
-  tries fx s [ACheckPeer c true; ARegister c; ALaunch c].
+Definition incoming_rest (fx : fixes) (s : state) (c : nat) : state :=
+  tries fx s [ABegin c; ARecvIdOk c; ACheckPeer c true; ARegister c; ALaunch c].
 
-Definition do_macro (fx tcp : bool) (x : xstate) (m : macro) : xstate :=
+Definition do_macro (fx : fixes) (tcp : bool) (x : xstate) (m : macro) : xstate :=
   let s := xs x in
   let keep s' := mkX s' (held_disp x) (held_stop x) in
   match m with
@@ -131,15 +138,16 @@ Definition do_macro (fx tcp : bool) (x : xstate) (m : macro) : xstate :=
   | MSendRelease t => keep (sender_release fx s t)
   | MIncoming p =>
       match step fx s (AIncoming p) with
-      | Some s1 => let c := length (conns s) in keep (incoming_rest fx (attempt fx s1 (ARecvIdOk c)) c)
+      | Some s1 => keep (incoming_rest fx s1 (length (conns s)))
       | None => x
       end
   | MIncomingHold p =>
       match step fx s (AIncoming p) with
-      | Some s1 => keep (attempt fx s1 (ARecvIdOk (length (conns s))))
+      | Some s1 => let c := length (conns s) in keep (tries fx s1 [ABegin c; ARecvIdOk c])
       | None => x
       end
-  | MIncomingSilent p => keep (attempt fx s (AIncoming p))
+  | MIncomingHoldAcc p => keep (attempt fx s (AIncoming p))
+  | MIncomingSilent p => keep (tries fx s [AIncoming p; ABegin (length (conns s))])
   | MIncomingRelease c => keep (incoming_rest fx s c)
   | MSilentClose c => keep (tries fx s [if tcp then APeerClose c else APeerCloseBoth c; ARecvIdFail c])
   | MDeliver c m => keep (tries fx s [AHRecvMsg c m; AHCheck c])
@@ -163,7 +171,7 @@ Definition do_macro (fx tcp : bool) (x : xstate) (m : macro) : xstate :=
   | MPeerClose c => keep (attempt fx s (if tcp then APeerClose c else APeerCloseBoth c))
   end.
 
-Definition exec (fx tcp : bool) (ms : list macro) : state :=
+Definition exec (fx : fixes) (tcp : bool) (ms : list macro) : state :=
   xs (fold_left (fun x m => settle fx (do_macro fx tcp x m)) ms (mkX init [] [])).
 
 (* ---- observations ----------------------------------------------------------- *)
@@ -198,7 +206,7 @@ Fixpoint list_eqb {A} (eqb : A -> A -> bool) (a b : list A) : bool :=
 Definition pair_eqb (a b : nat * nat) : bool := (fst a =? fst b) && (snd a =? snd b).
 
 Definition agree_script (tcp : bool) (ms : list macro) (o : robs) : bool :=
-  let s := exec code_fixed_F11 tcp ms in
+  let s := exec (mkFx code_fixed_F11 code_fixed_F43) tcp ms in
   list_eqb ores_eqb (map model_send (senders s)) (o_sends o) &&
   list_eqb Bool.eqb (map stop_done (stops s)) (o_stops o) &&
   list_eqb Bool.eqb (map lopen (conns s)) (o_open o) &&
@@ -283,7 +291,7 @@ Definition pc_ok (p : kpc) : bool := match p with KRet Ok => true | _ => false e
 Definition pc_err (p : kpc) : bool := match p with KRet Err => true | _ => false end.
 
 Definition race_model (k n : nat) : kstate :=
-  sched false true code_fixed_F11 (13 * k + 8) (kinit true init n k).
+  sched false true (mkFx code_fixed_F11 code_fixed_F43) (13 * k + 8) (kinit true init n k).
 
 Definition agree_closerace (k n oks errs pending : nat) (o : sobs) : bool :=
   let s := race_model k n in
